@@ -74,6 +74,13 @@ MUTANTS = [
     ("C11", TM + "_tree.py", "            if nd.taxon is not None:\n                self.taxon_namespace.add_taxon(nd.taxon)\n        return self.taxon_namespace",
      "            if nd.taxon is not None and nd.is_leaf():\n                self.taxon_namespace.add_taxon(nd.taxon)\n        return self.taxon_namespace",
      "Tree.update_taxon_namespace: internal-node taxa skipped"),
+    ("C17", TM + "_tree.py", "                        if d > ultrametricity_precision:", "                        if d >= ultrametricity_precision:",
+     "calc_node_ages: a difference equal to the precision is rejected"),
+    ("C17", TM + "_tree.py", "            if len(child_nodes) == 0:\n                node.age = 0.0", "            if len(child_nodes) == 0:\n                node.age = 1.0",
+     "calc_node_ages: leaves get age 1.0"),
+    ("C17", TM + "_tree.py", "                    for nnd in child_nodes[1:]:", "                    for nnd in child_nodes[2:]:", "calc_node_ages: second child not compared"),
+    ("C17", TM + "_tree.py", "                        age_to_set = first_child.age + first_child.edge.length\n                    elif first_child.edge.length is None:",
+     "                        age_to_set = first_child.age - first_child.edge.length\n                    elif first_child.edge.length is None:", "calc_node_ages: length subtracted"),
     ("C19", "dendropy/datamodel/charmatrixmodel.py", "            self.append(None)\n            to_add -= 1", "            self.append(None)", "set_at: loop counter not decremented"),
     ("C20", "dendropy/dataio/nexusreader.py",
      "            else:\n                token = self._nexus_tokenizer.require_next_token_ucase()\n\n    def _parse_dimensions_statement",
